@@ -543,21 +543,27 @@ BEAM_OPS = ['energy', 'power', 'temperature', 'sigma', 'divergence_x', 'divergen
             'plasma.b_field', 'plasma.transform']
 
 
+# quick tier: every single change, plus the pairs (re-set something that re-configures the attenuator / models, then change what their caches depend on)
+BEAM_RESET_OPS = ['atomic_data', 'attenuator', 'models.set', 'plasma.composition', 'transform']
+BEAM_PROBE_OPS = ['energy', 'transform', 'plasma.transform', 'plasma.electron_distribution']
+
+
 @harness('C01', name='beam_history', universe=_beam_universe,
-         tiers={'quick': [{'op1': o, 'depth': 1} for o in BEAM_OPS], 'thorough': [{'op1': o, 'depth': 2} for o in BEAM_OPS]},
+         tiers={'quick': [{'op1': o, 'depth': 1} for o in BEAM_OPS] + [{'op1': a, 'depth': 2, 'op2': b} for a in BEAM_RESET_OPS for b in BEAM_PROBE_OPS],
+                'thorough': [{'op1': o, 'depth': 2} for o in BEAM_OPS]},
          functions=['cherab.core.beam.node.Beam', 'cherab.core.beam.node.ModelManager', 'cherab.core.beam.model.BeamModel', 'cherab.core.beam.model.BeamAttenuator',
                     'cherab.core.beam.material.BeamMaterial', ATT + '.SingleRayAttenuator', MB + 'charge_exchange.BeamCXLine', MB + 'beam_emission.BeamEmissionLine',
                     'cherab.core.plasma.node.Plasma', 'cherab.core.utility.notify.Notifier'],
          cover=['history-explored'],
-         bounds={'history': 'build -> [observe] -> op1 (-> [observe] -> op2 in the thorough tier) -> observe; op1 concrete per job, op2 and the interleaved observations '
-                            'symbolic choices over the 21 beam / attenuator / plasma mutators',
+         bounds={'history': 'build -> [observe] -> op1 (-> [observe] -> op2 in the thorough tier) -> observe; op1 concrete per job; the quick tier adds 20 concrete pairs (re-configuring change, then a '
+                            'change the caches depend on); in the thorough tier op2 is a symbolic choice over all 21 beam / attenuator / plasma mutators; interleaved observations symbolic',
                  'values': 'new energies, powers, widths, divergences, providers, plasma profiles (uninterpreted functions of position), transforms (translations) are fresh '
                            'symbolic objects; beam length 1 m <-> 2 m, sigma 0.1 <-> 0.2, divergences 0.5 <-> 2 deg, attenuator step 0.5 <-> 0.25 (concrete); observation at a symbolic (x, y), z = 0.4 m'},
          stubs=['raysect scene graph: transcription (symx/scene_model.py) with Python-level _modified() dispatch as compiled (C-only methods are not reached)',
                 'line shapes: recording stubs', 'rates: uninterpreted functions tagged by provider and request', 'scipy cumulative_trapezoid / raysect linear interpolator: exact models'],
          outside=['ray tracing through the bounding primitive: the primitive kind and its radius / height are part of the observation instead', 'rotated placements',
                   'laser nodes and Thomson scattering (not encoded)', 'histories longer than the stated depth'])
-def beam_history(ex, uni, op1, depth):
+def beam_history(ex, uni, op1, depth, op2=None):
     ex.div_policy = 'total'
     MATH.light = True      # exp / sqrt / tan are plain uninterpreted functions here: the comparison needs functional consistency only
     gen = [0]
@@ -565,7 +571,7 @@ def beam_history(ex, uni, op1, depth):
     x, y = ex.real('x'), ex.real('y')
     z = 0.4
     dr = rs_model.Vector3D(ex.real('dx'), ex.real('dy'), ex.real('dz'))
-    ops = [op1] + [ex.choice('op%d' % k, BEAM_OPS) for k in range(2, depth + 1)]
+    ops = [op1, op2] if op2 is not None else [op1] + [ex.choice('op%d' % k, BEAM_OPS) for k in range(2, depth + 1)]
     trace = []
     for k, op in enumerate(ops):
         if bool(ex.bool('observe_before_op%d' % (k + 1))):
@@ -587,3 +593,209 @@ def beam_history(ex, uni, op1, depth):
             v, d = _compare(ex, got[k], want[k])
             ex.prove(v, label + '-after-history==same-in-a-scene-built-from-scratch', info=hist, sat_first=d)
     ex.sample(hist)
+
+
+# ================================================================================================ laser side
+class _Profile:
+    """LaserProfile stand-in: notifier, generated geometry (two cylinder segments), energy density = uninterpreted function tagged by version"""
+    def __init__(self, ex, tag, nseg=2):
+        from cherab.core.utility.notify import Notifier
+        self.ex, self.tag, self.nseg = ex, tag, nseg
+        self.notifier = Notifier()
+
+    def generate_geometry(self):
+        return [SM.Cylinder(0.01, 1.0, transform=translate(0.0, 0.0, float(k)), name='segment %d of %s' % (k, self.tag)) for k in range(self.nseg)]
+
+    def get_energy_density(self, x, y, z):
+        return self.ex.uf('E_' + self.tag, x, y, z)
+
+
+class _LSpectrum:
+    def __init__(self, ex, tag):
+        self.ex, self.tag = ex, tag
+
+
+def _laser_universe():
+    stubs = dict(SM.STUBS)
+    stubs.update({'hydrogen': H, 'deuterium': D_, 'tritium': T_, 'Element': W.El, 'LaserProfile': _Profile, 'LaserSpectrum': _LSpectrum})
+    return Universe(stubs=stubs)
+
+
+class LaserScene:
+    def __init__(self, ex, uni, cfg=None, gen=None):
+        self.ex, self.uni = ex, uni
+        self.mutator_errors = []
+        self.lnode = uni.load('cherab.core.laser.node')
+        self.lmodel = uni.load('cherab.core.laser.model')
+        self.pnode = uni.load('cherab.core.plasma.node')
+        self.gen = gen if gen is not None else [0]
+        self.world = SM.World()
+        self.cfg = dict(cfg) if cfg is not None else self.initial_cfg()
+        self.build()
+
+    def fresh(self, kind):
+        self.gen[0] += 1
+        k = self.gen[0]
+        ex = self.ex
+        if kind == 'profile':
+            return _Profile(ex, 'prof%d' % k, nseg=2 + (k % 2))
+        if kind == 'spectrum':
+            return _LSpectrum(ex, 'spec%d' % k)
+        if kind == 'edist':
+            return PosDist(ex, 'e_v%d' % k)
+        if kind in ('transform', 'ptransform'):
+            return translate(ex.real('tx_v%d' % k), ex.real('ty_v%d' % k), ex.real('tz_v%d' % k))
+        if kind == 'integrator':
+            return SM.NumericalIntegrator(step=0.001 * k)
+        if kind == 'importance':
+            return float(k)
+        raise KeyError(kind)
+
+    def initial_cfg(self):
+        c = {k: self.fresh(k) for k in ('profile', 'spectrum', 'edist', 'integrator', 'importance')}
+        c.update({'transform': None, 'ptransform': None, 'models': ['m1', 'm2'], 'plasma_version': 1})
+        return c
+
+    def new_models(self, kinds):
+        Base = self.lmodel.LaserModel
+        ex = self.ex
+
+        class RecModel(Base):
+            """laser model: emission = uninterpreted function of the electron density at the plasma point, the laser energy density at the
+            laser point and the spectrum in use (what Thomson scattering depends on)"""
+            def __init__(s, tag):
+                Base.__init__(s)
+                s.tag = tag
+
+            def emission(s, point_plasma, observation_plasma, point_laser, observation_laser, spectrum):
+                ne = s._plasma.electron_distribution.density(point_plasma.x, point_plasma.y, point_plasma.z)
+                en = s._laser_profile.get_energy_density(point_laser.x, point_laser.y, point_laser.z)
+                v = ex.uf('scatter_%s_%s' % (s.tag, s._laser_spectrum.tag), ne, en, observation_plasma.x, observation_laser.x)
+                spectrum.samples[0] = spectrum.samples[0] + v
+                return spectrum
+        return [RecModel(k) for k in kinds]
+
+    def make_plasma(self):
+        c = self.cfg
+        p = self.pnode.Plasma(parent=self.world, transform=c['ptransform'])
+        p.electron_distribution = c['edist']
+        return p
+
+    def build(self):
+        c = self.cfg
+        self.plasma = self.make_plasma()
+        l = self.laser = self.lnode.Laser(parent=self.world, transform=c['transform'])
+        l.integrator = c['integrator']
+        l.importance = c['importance']
+        l.plasma = self.plasma
+        l.laser_profile = c['profile']
+        l.laser_spectrum = c['spectrum']
+        if c['models']:
+            l.models = self.new_models(c['models'])
+
+    def apply(self, op):
+        l, c = self.laser, self.cfg
+        if op == 'laser_profile':
+            c['profile'] = self.fresh('profile')
+            l.laser_profile = c['profile']
+        elif op == 'profile.notify':
+            # the profile object itself changes (its setters notify): new energy density, same object
+            self.gen[0] += 1
+            c['profile'].tag = c['profile'].tag + '_m%d' % self.gen[0]
+            c['profile'].notifier.notify()
+        elif op == 'laser_spectrum':
+            c['spectrum'] = self.fresh('spectrum')
+            l.laser_spectrum = c['spectrum']
+        elif op == 'plasma':
+            c['edist'] = self.fresh('edist')
+            self.plasma = self.make_plasma()
+            l.plasma = self.plasma
+        elif op == 'plasma.electron_distribution':
+            c['edist'] = self.fresh('edist')
+            self.plasma.electron_distribution = c['edist']
+        elif op == 'plasma.transform':
+            c['ptransform'] = self.fresh('ptransform')
+            self.plasma.transform = c['ptransform']
+        elif op == 'models.set':
+            c['models'] = ['m3']
+            l.models = self.new_models(c['models'])
+        elif op == 'models.clear':
+            c['models'] = []
+            l.models = []
+        elif op == 'integrator':
+            c['integrator'] = self.fresh('integrator')
+            try:
+                l.integrator = c['integrator']
+            except AttributeError as e:
+                self.mutator_errors.append('integrator setter: ' + type(e).__name__)
+        elif op == 'importance':
+            c['importance'] = self.fresh('importance')
+            l.importance = c['importance']
+        elif op == 'transform':
+            c['transform'] = self.fresh('transform')
+            l.transform = c['transform']
+        elif op == 'detach+attach':
+            l.parent = None
+            l.parent = self.world
+        else:
+            raise KeyError(op)
+
+    def observe(self, pt, dr):
+        """per laser segment: what the segment's material emits at a point given in the segment's coordinates"""
+        l = self.laser
+        out = []
+        segs = list(l.children)
+        for g in segs:
+            mat = g.material
+            if type(mat) is SM.Material:
+                out.append(('segment', g.height, g.radius, 'no-emitter'))
+                continue
+            mat.primitives = [g]
+            sp = self.uni.rs.Spectrum(400.0, 500.0, 2)
+            try:
+                mat.emission_function(pt, dr, sp, self.world, None, g, None, None)
+                val = sp.samples[0]
+            except Exception as e:
+                val = 'raises:' + type(e).__name__
+            out.append(('segment', g.height, g.radius, val, mat.integrator, mat.importance, len(mat._models)))
+        return ('laser', len(segs), out)
+
+
+LASER_OPS = ['laser_profile', 'profile.notify', 'laser_spectrum', 'plasma', 'plasma.electron_distribution', 'plasma.transform', 'models.set', 'models.clear', 'integrator',
+             'importance', 'transform', 'detach+attach']
+
+
+@harness('C01', name='laser_history', universe=_laser_universe,
+         tiers={'quick': [{'op1': o, 'depth': 2} for o in LASER_OPS], 'thorough': [{'op1': o, 'depth': 3} for o in LASER_OPS]},
+         functions=['cherab.core.laser.node.Laser', 'cherab.core.laser.node.ModelManager', 'cherab.core.laser.material.LaserMaterial', 'cherab.core.laser.model.LaserModel',
+                    'cherab.core.plasma.node.Plasma', 'cherab.core.utility.notify.Notifier'],
+         cover=['history-explored'],
+         bounds={'history': 'build -> [observe] -> op1 -> [observe] -> op2 (-> [observe] -> op3, thorough) -> observe over the 12 laser / profile / plasma mutators; op1 concrete per '
+                            'job, later ops and observations symbolic choices', 'values': 'profiles (2 or 3 segments), spectra, electron distributions, transforms (translations) fresh '
+                            'symbolic objects; observation point symbolic in segment coordinates'},
+         stubs=['raysect scene graph: transcription', 'LaserProfile / LaserSpectrum: stand-ins (notifier, generated cylinder segments, uninterpreted energy density)',
+                'laser model: recording subclass of the real LaserModel whose emission is an uninterpreted function of n_e(plasma point), energy density(laser point) and the '
+                'spectrum in use'],
+         outside=['the Thomson-scattering formula of SeldenMatobaThomsonSpectrum (it holds no derived state)', 'real laser profiles\' geometry generation', 'ray tracing'])
+def laser_history(ex, uni, op1, depth):
+    MATH.light = True
+    gen = [0]
+    live = LaserScene(ex, uni, gen=gen)
+    pt = rs_model.Point3D(ex.real('px'), ex.real('py'), ex.real('pz'))
+    dr = rs_model.Vector3D(ex.real('dx'), ex.real('dy'), ex.real('dz'))
+    ops = [op1] + [ex.choice('op%d' % k, LASER_OPS) for k in range(2, depth + 1)]
+    trace = []
+    for k, op in enumerate(ops):
+        if bool(ex.bool('observe_before_op%d' % (k + 1))):
+            live.observe(pt, dr)
+            trace.append('observe')
+        live.apply(op)
+        trace.append(op)
+    got = live.observe(pt, dr)
+    fresh = LaserScene(ex, uni, cfg=live.cfg, gen=gen)
+    want = fresh.observe(pt, dr)
+    ex.cover('history-explored')
+    v, d = _compare(ex, got, want)
+    ex.prove(v, 'laser-observation-after-history==observation-of-a-scene-built-from-scratch', info={'history': trace}, sat_first=d)
+    ex.prove(not live.mutator_errors and not fresh.mutator_errors, 'laser-mutators-accepted-in-any-order', info={'history': trace, 'errors': live.mutator_errors + fresh.mutator_errors})
+    ex.sample({'history': trace})
